@@ -537,6 +537,10 @@ func registryCloseFromInside(event, transport string, discard bool) (key, msg st
 func TestC04(t *testing.T) {
 	r := rep.New(t, "C04")
 	defer r.Flush()
+	if r.Lane == 3%r.Lanes {
+		// the engine behind a types.HttpServer listening itself: HTTP/1.1, HTTP/2 (TLS) and HTTP/3 (QUIC) on loopback
+		defer netLanes(r, r.N(4, 64))
+	}
 	r.Rule("PRNG histories of 4-18 operations on one server: handshakes on three transports, every close cause, upgrades, requests naming closed sessions, sessions killed while their handshake is held at server.Handshake.afterNewSocket, final Server.Close (window operation on all three transports with six causes); a real-time churn lane of 32 goroutines handshaking and closing concurrently; a gate lane holding the table's delete of a closing session in the map's slow path (hook map.slowPath) across a promotion; after EVERY operation the bubble is brought to quiescence and the invariant is evaluated (table == count == live announced sessions, no closed session reachable, no underflow); ids checked for uniqueness and alphabet across the process plus 16-goroutine GenerateId storms, also with crypto/rand replaced by a constant reader; distinct = operation sequences")
 	r.Assume("with a degenerate random source ids must still be unique: the guarantee rests on the monotone sequence number inside the id, not on luck")
 	n := r.N(2000, 150000)
